@@ -73,8 +73,12 @@ def _pattern(draw):
     outs = sorted(draw(st.sets(st.integers(1, n), max_size=2)))
     # the pattern is applied either to a fresh client or after shutdown() + init() of the same object
     reinit = draw(st.integers(0, 3)) == 0
+    # kind of outage: a peer reset 1.5 s before the heartbeat with one refused reconnection, or a peer close 1/16 s
+    # before it with a close that takes 1/8 s (the heartbeat instant falls inside the window in which the client is
+    # still closing the old stream), reconnection at once
+    okind = draw(st.sampled_from(["reset", "reset", "slow-eof"]))
     return {"n": n, "delays": ds[: n + 3], "unsolicited": sorted(uns), "shape": shape, "decoys": sorted(decoys), "outages": outs,
-            "reinit": reinit}
+            "reinit": reinit, "outage_kind": okind}
 
 
 def timeline(t0: float, interval: float, timeout: float, delays, unsolicited, t_end: float, outages=()):
@@ -154,7 +158,11 @@ def _check_api(gen: int, pat, inst, state, stats: Stats | None):
         c = rig.console
         n_ver0 = len([1 for q in c.requests if q[2] == "version_req"]) - 1
         t_end = t0 + pat["n"] * 300.0 + 700.0
-        outages = [(t0 + k * 300.0 - 1.5, t0 + k * 300.0 + 0.5) for k in pat.get("outages", ())]
+        slow = pat.get("outage_kind") == "slow-eof"
+        if slow:
+            outages = [(t0 + k * 300.0 - 0.0625, t0 + k * 300.0 + 0.0625) for k in pat.get("outages", ())]
+        else:
+            outages = [(t0 + k * 300.0 - 1.5, t0 + k * 300.0 + 0.5) for k in pat.get("outages", ())]
         model = timeline(t0, 300.0, 330.0, pat["delays"], [t0 + u for u in pat["unsolicited"]], t_end, outages)
         if model is None:
             if stats is not None:
@@ -181,13 +189,23 @@ def _check_api(gen: int, pat, inst, state, stats: Stats | None):
         def outage():
             tr = rig.net.current
             if tr is not None:
-                rig.net.script.append(("refuse", 0.0))
-                tr.peer_reset()
-        for s_, _e in outages:
+                if slow:
+                    rig.net.close_latency = 0.125
+                    tr.peer_eof()
+                else:
+                    rig.net.script.append(("refuse", 0.0))
+                    tr.peer_reset()
+
+        def outage_over():
+            rig.net.close_latency = 0.0
+        for s_, e_ in outages:
             rig.loop.call_at(s_, outage)
+            if slow:
+                rig.loop.call_at(e_, outage_over)
         rig.loop.advance(t_end - t0)
         got_req = [t for (t, _cid, kind, _p, _f) in c.requests if kind == "version_req"][n_ver0:]
-        got_resets = [e[0] for e in rig.net.log if e[1] == "closed" and e[3] == "client" and e[0] >= t0]
+        got_resets = [e[0] for e in rig.net.log if e[1] == "closed" and e[3] == "client" and e[0] >= t0
+                      and not (slow and any(s_ <= e[0] <= e_ for s_, e_ in outages))]   # the client's own close after a peer EOF
         _judge(bad, exp_req, exp_resets, got_req, got_resets, rig.net, t_end)
         if rig.loop.unhandled or harness.unhandled_task_errors():
             bad("unhandled", f"unhandled exception: {(rig.loop.unhandled or harness.unhandled_task_errors())[0]}")
@@ -235,6 +253,8 @@ def _record(stats, case, pat, exp_resets, tag):
     classes = [tag, f"shape:{pat['shape']}", "resets:%d" % min(len(exp_resets), 3)]
     if pat.get("outages") and tag.startswith("api"):
         classes.append("outage-at-heartbeat")
+        if pat.get("outage_kind") == "slow-eof":
+            classes.append("heartbeat-inside-closing-window")
     if pat.get("decoys") and tag.startswith("api"):
         classes.append("decoys")
     if pat.get("reinit") and tag.startswith("api"):
@@ -352,7 +372,8 @@ def shards(tier: str):
 
 
 def floors(tier: str):
-    return {"silent-from-first": 10, "silence-after-reset": 20, "resets:0": 40, "resets:1": 10, "outage-at-heartbeat": 50, "decoys": 50, "after-reinit": 30}
+    return {"silent-from-first": 10, "silence-after-reset": 20, "resets:0": 40, "resets:1": 10, "outage-at-heartbeat": 50, "decoys": 50, "after-reinit": 30,
+            "heartbeat-inside-closing-window": 15}
 
 
 def run_shard(spec, seed: int, tier: str):
